@@ -903,13 +903,23 @@ def rule_r28(text, rules):
             while st[p].text != "|": p += 1
             if st[p + 1].text != "{" or match_close(st, p + 1) != ac - 1: continue
             if st[ac + 1].text != ";": continue
-            if any(y.kind == "ident" and y.text == "return" for y in st[p + 1:ac]): raise ExtractError("R28: `return` inside a for_each closure")
             hit = (r, i, ao, ac, p); break
         if hit is None: return text
         r, i, ao, ac, p = hit
         E = text[st[r].start:st[i - 1].end]
         X = text[st[ao + 2].start:st[p - 1].end]
         body = text[st[p + 1].start:st[ac - 1].end]
+        # a `return;` of the closure ends this call of it, i.e. this iteration: `continue;` - unless it sits in a loop or closure nested in BODY
+        tb, stb = _sig_with_index(body)
+        eds = []
+        for q, y in enumerate(stb):
+            if y.kind == "ident" and y.text == "return":
+                if stb[q + 1].text != ";": raise ExtractError("R28: `return <value>` inside a for_each closure")
+                spans = [(stb[lb].start, stb[match_close(stb, lb)].end) for (kw, lb) in _loop_headers(body, stb, 0)]
+                if any(a <= y.start < b for a, b in spans) or any(z.text == "|" for z in stb[1:q]):
+                    raise ExtractError("R28: `return` inside a loop or closure nested in a for_each closure")
+                eds.append((y.start, y.end, "continue"))
+        body = apply_edits(body, eds)
         text = text[:st[r].start] + "for %s in %s %s" % (X, E, body) + text[st[ac + 1].end:]
         rules.append("R28")
 
